@@ -44,7 +44,7 @@ class C10(P.Property):
             "foreign-sid message, unknown type} on consecutive connections + scheme + network profile; non-trivial = at least one "
             "request and at least one reconnect (connection end = the fault/restart event of this property); distinct = digest of "
             "(model state, message kind, outcome)* sequence")
-    real_stub = dict(C12_like="see C12: real server + websockets on the simulated loop/TCP/disk seam; harness actor speaks the wire format")
+    real_stub = dict(C12_like="see C12: real server + websockets on the simulated loop/TCP/disk seam; harness actor speaks the wire format; wall clock (time.time) and file time stamps (os.stat) simulated: follow the virtual clock, steppable, per-run stamp granularity")
     assumptions = ["connections are consecutive, never overlapping (overlap is C12)",
                    "tokens under the other key are valid messages and must produce an empty result"]
     probe_names = ["forced_reconnect", "reconnect_inside_cleanup", "abort_reconnect", "second_config_refused", "second_upload_refused",
